@@ -2,6 +2,7 @@ package rg
 
 import (
 	"fmt"
+	"os"
 	"go/token"
 	"go/types"
 	"sort"
@@ -498,7 +499,28 @@ func (p *bprover) defFacts(s *factSet, goal dfact) {
 			case token.SUB:
 				// v = a - b (both variables): v + b = a, expressible only when b is a node: v - a <= -b ... skip
 			}
+		case *ssa.Extract:
+			if call, ok := x.Tuple.(*ssa.Call); ok {
+				if cf := call.Call.StaticCallee(); cf != nil && firstParty(cf) && isSignedInt(x.Type()) {
+					for j, arg := range call.Call.Args {
+						if p.c.resultLeLen(cf, x.Index, j) {
+							l := p.lenOf(arg)
+							s.fs = append(s.fs, dfact{n, l.n, l.k})
+							push(l.n)
+						}
+					}
+				}
+			}
 		case *ssa.Call:
+			if cf := x.Call.StaticCallee(); cf != nil && firstParty(cf) && isSignedInt(x.Type()) {
+				for j, arg := range x.Call.Args {
+					if p.c.resultLeLen(cf, 0, j) {
+						l := p.lenOf(arg)
+						s.fs = append(s.fs, dfact{n, l.n, l.k})
+						push(l.n)
+					}
+				}
+			}
 			if cf := x.Call.StaticCallee(); cf != nil && firstParty(cf) {
 				// result of  recv.pos(key) = hash % len(recv.F)  (or % recv.N with N aliased to len(recv.S))
 				if f, isLen, ok := modLenResult(cf); ok && len(x.Call.Args) > 0 {
@@ -513,8 +535,6 @@ func (p *bprover) defFacts(s *factSet, goal dfact) {
 					}
 				}
 			}
-		case *ssa.Extract:
-			// index half of a range over a string/map: unknown
 		}
 	}
 	s.fs = append(s.fs, p.entry...)
@@ -673,7 +693,7 @@ func (p *bprover) prove(goal dfact, b *ssa.BasicBlock, extra *factSet, depth int
 	}
 	// split at joins up the dominator chain, nearest first
 	tried := 0
-	for j := b; j != nil && tried < 3; j = j.Idom() {
+	for j := b; j != nil && tried < 5; j = j.Idom() {
 		if len(j.Preds) < 2 {
 			continue
 		}
@@ -764,8 +784,8 @@ func (p *bprover) ProveLE(x, y lt, c int64, at ssa.Instruction) bool {
 		}
 	}
 	p.stack = map[string]bool{}
-	p.budget = 400
-	return p.prove(goal, at.Block(), &factSet{par: map[string]int{}}, 4)
+	p.budget = 1500
+	return p.prove(goal, at.Block(), &factSet{par: map[string]int{}}, 6)
 }
 
 // ---------- sites ----------
@@ -782,8 +802,11 @@ func (c *C) newProver(fn *ssa.Function) *bprover {
 		c.hookOwner = c
 		busy := map[*ssa.Parameter]bool{}
 		paramNonNegHook = func(prm *ssa.Parameter) bool {
-			if busy[prm] || prm.Parent() == nil {
+			if prm.Parent() == nil {
 				return false
+			}
+			if busy[prm] {
+				return true // coinductive: the invariant "non-negative" is assumed while it is being established
 			}
 			busy[prm] = true
 			defer delete(busy, prm)
@@ -1486,4 +1509,56 @@ func lockstepResults(fn *ssa.Function, i, j int) bool {
 		}
 	}
 	return true
+}
+
+// resultLeLen: on every return of fn, result k is <= len(parameter j) (a position inside or at the end of the slice/string).
+func (c *C) resultLeLen(fn *ssa.Function, k, j int) bool {
+	if fn == nil || fn.Blocks == nil || j >= len(fn.Params) {
+		return false
+	}
+	switch t := fn.Params[j].Type().Underlying().(type) {
+	case *types.Slice:
+	case *types.Basic:
+		if t.Info()&types.IsString == 0 {
+			return false
+		}
+	default:
+		return false
+	}
+	if c.rllMemo == nil {
+		c.rllMemo = map[string]int{}
+	}
+	key := fmt.Sprintf("%s|%d|%d", fn.String(), k, j)
+	switch c.rllMemo[key] {
+	case 1:
+		return true
+	case 2, 3:
+		return false
+	}
+	c.rllMemo[key] = 3
+	res, any := true, false
+	pr := c.newProver(fn)
+	for _, b := range fn.Blocks {
+		for _, in := range b.Instrs {
+			ret, ok := in.(*ssa.Return)
+			if !ok || len(ret.Results) <= k || !isSignedInt(ret.Results[k].Type()) {
+				continue
+			}
+			for _, v := range retResults(ret)[k] {
+				any = true
+				if !pr.ProveLE(pr.lin(v), pr.lenOf(fn.Params[j]), 0, ret) {
+					res = false
+				}
+			}
+		}
+	}
+	if os.Getenv("RG_DEBUG") != "" {
+		fmt.Fprintf(os.Stderr, "resultLeLen %s k=%d j=%d -> %v (any=%v) entry=%v\n", fn.Name(), k, j, res, any, pr.entry)
+	}
+	if res && any {
+		c.rllMemo[key] = 1
+		return true
+	}
+	c.rllMemo[key] = 2
+	return false
 }
